@@ -44,6 +44,25 @@ func runC11(c *ctxT) {
 		c11RecordCase(c, 700000+c.Batch*10000+i, rng)
 		c11InterfaceCase(c, 600000+c.Batch*10000+i, rng)
 	}
+	// directed: the collector has decided to release the record of a fixed-IP pod whose TTL is over; before its
+	// write lands the pod returns and the record is re-bound to it
+	if c.Batch == 0 {
+		id := 0
+		for _, trunk := range []bool{true, false} {
+			for _, at := range []string{"get", "write"} {
+				id++
+				hid := 820000 + id
+				fmt.Printf("CASE C11 directed-gc %d trunk=%v at=%s\n", hid, trunk, at)
+				h := newPeHist(c, "C11", hid, peCfg{Trunk: trunk, Names: 1}, int64(hid))
+				sp := h.mon.spec["p0"]
+				sp.Fixed, sp.Owner, sp.NIfs = "ttl-zero", "StatefulSet", 1
+				c11ScriptReturnDuringGC(h, at)
+				c.R.Eval(1)
+				c.R.Count("directed_return_during_collector_cases", 1)
+				h.finish(c.R)
+			}
+		}
+	}
 	runPeHistories(c, "C11", nHist, 64, func(rng *rand.Rand) peCfg {
 		cfg := genPeCfg(rng)
 		cfg.FixedBias = true
@@ -247,4 +266,34 @@ func c11InterfaceCase(c *ctxT, hid int, rng *rand.Rand) {
 	}
 	c.R.Eval(1)
 	c.R.Count("directed_interface_cases", 1)
+}
+
+func c11ScriptReturnDuringGC(h *peHist, at string) {
+	h.walking = true
+	defer func() { h.walking = false }()
+	h.createPod("p0")
+	h.deliverPod("p0")
+	h.deliverENI("p0")
+	h.mon.mu.Lock()
+	p := h.mon.cur["p0"]
+	h.mon.mu.Unlock()
+	h.remove(p)
+	for i := 0; i < 2; i++ { // detaching -> unbound
+		h.deliverPod("p0")
+		h.deliverENI("p0")
+	}
+	h.scriptedAt = at
+	h.scripted = func() {
+		h.createPod("p0")
+		for i := 0; i < 3; i++ {
+			h.deliverPod("p0")
+			h.deliverENI("p0")
+		}
+	}
+	h.gcRecords()
+	h.scripted = nil
+	for i := 0; i < 4; i++ {
+		h.deliverENI("p0")
+		h.deliverPod("p0")
+	}
 }
